@@ -2,6 +2,7 @@
 C02, execution half — F2: the expression step and the induction on the reference fuel.
 -/
 import ZygoVerif.Proofs.SimF2Forms
+import ZygoVerif.Proofs.SimF2Tail
 set_option linter.unusedSimpArgs false
 set_option linter.unusedVariables false
 namespace ZygoVerif.Sim
@@ -247,13 +248,22 @@ theorem fclaims_zero : FClaimE 0 ∧ FClaimB 0 ∧ FClaimC 0 ∧ FClaimA 0 ∧ F
     rw [Ref.loop]; trivial
 
 theorem fclaims : ∀ n, FClaimE n ∧ FClaimB n ∧ FClaimC n ∧ FClaimA n ∧ FClaimU n ∧ FClaimS n ∧ FClaimN n ∧ FClaimL n
-    ∧ FClaimP n ∧ FClaimV n ∧ FClaimF n
-  | 0 => fclaims_zero
+    ∧ FClaimP n ∧ FClaimV n ∧ FClaimF n ∧ TClaimV n ∧ TClaimE n ∧ TClaimB n ∧ TClaimC n ∧ TClaimN n
+    ∧ XClaimE n ∧ XClaimB n ∧ XClaimC n ∧ XClaimN n ∧ XClaimF n
+  | 0 => by
+    obtain ⟨hE, hB, hC, hA, hU, hS, hN, hL, hP, hV, hF⟩ := fclaims_zero
+    obtain ⟨tV, tE, tB, tC, tN⟩ := tclaims_zero
+    obtain ⟨xE, xB, xC, xN, xF⟩ := xclaims_zero
+    exact ⟨hE, hB, hC, hA, hU, hS, hN, hL, hP, hV, hF, tV, tE, tB, tC, tN, xE, xB, xC, xN, xF⟩
   | n + 1 => by
-    obtain ⟨hE, hB, hC, hA, hU, hS, hN, hL, hP, hV, hF⟩ := fclaims n
-    exact ⟨fclaimE_succ hE hB hC hA hU hS hN hL hP hV hF, fclaimB_succ hE hB, fclaimC_succ hE hC, fclaimA_succ hE hA,
-      fclaimU_succ hB, fclaimS_succ hE hS, fclaimN_succ hE hN, fclaimL_succ hE hL, fclaimP_succ hE hP, fclaimV_succ hE hV,
-      fclaimF_succ hE hB hF⟩
+    obtain ⟨hE, hB, hC, hA, hU, hS, hN, hL, hP, hV, hF, tV, tE, tB, tC, tN, xE, xB, xC, xN, xF⟩ := fclaims n
+    have hE1 := fclaimE_succ hE hB hC hA hU hS hN hL hP hV hF
+    have xE1 := xclaimE_succ hE1 hE hL hP xE xB xC xN xF
+    exact ⟨hE1, fclaimB_succ hE hB, fclaimC_succ hE hC, fclaimA_succ hE hA,
+      fclaimU_succ tB, fclaimS_succ hE hS, fclaimN_succ hE hN, fclaimL_succ hE hL, fclaimP_succ hE hP, fclaimV_succ hE hV,
+      fclaimF_succ hE hB hF, tclaimV_succ hE tV, tclaimE_succ hE1 xE1 tV hA hU hL hP tB tC tN, tclaimB_succ hE xE tE tB,
+      tclaimC_succ hE tE tC, tclaimN_succ hE xE tE tN, xE1, xclaimB_succ xE xB, xclaimC_succ hE xE xC,
+      xclaimN_succ xE xN, xclaimF_succ hE xB xF⟩
 
 /-- **Segment lemma for F2 expressions.** -/
 theorem segment_Ff (fnOk : Bool) (self : String) (e : Expr) (he : Ff fnOk self e = true) (isFn : Nat → Bool) (c : Ctx)
